@@ -524,7 +524,32 @@ def r11(R):
             tgt = [i.bb for i in ins if b.alias_root(i.args[0]) == X]
             r = b.reach_from([g.bb], avoid=avoid - {g.bb})
             if not any(t in r or t == g.bb for t in tgt):
-                bad.append(g.ln)
+                # accepted alternative: the new binding is staged in a side structure that the failed-lookup branch also consults before it writes
+                staged = set()
+                for bb2, i2, pl2, rv2, st2 in b.assigns():
+                    if bb2 in r and pl2["p"] and any(e["k"] in ("index", "constant_index", "field") for e in pl2["p"]) and b.local_name(pl2["l"]) and pl2["l"] != X:
+                        staged.add(pl2["l"])
+                for c2 in b.calls():
+                    if c2.bb in r and c2.name() in ("push", "insert") and c2.args and F.op_place(c2.args[0]) is not None and b.alias_root(c2.args[0]) not in (None, X):
+                        staged.add(b.alias_root(c2.args[0]))
+                def _root(op):
+                    pl = F.op_place(op)
+                    seen = set()
+                    while pl is not None and pl["l"] not in seen:
+                        seen.add(pl["l"])
+                        if b.local_name(pl["l"]):
+                            return pl["l"]
+                        ds = [d for d in b.defs().get(pl["l"], []) if d[0] == "assign"]
+                        if len(ds) != 1:
+                            return pl["l"]
+                        rv = ds[0][3]
+                        nxt = rv.get("pl") if rv["rv"] in ("ref", "rawptr") else F.op_place(rv.get("op") or {}) if rv["rv"] in ("use", "cast") else None
+                        pl = nxt
+                    return None
+                consulted = any(c2.bb in r and c2.name() in ("iter", "get", "contains", "contains_key", "find", "into_iter", "as_slice", "deref") and c2.args
+                                and _root(c2.args[0]) in staged for c2 in b.calls())
+                if not (staged and consulted):
+                    bad.append(g.ln)
         R.ob("C05-R11", "bind-before-next-lookup:" + b.name, "%s binds a variable before the next position is looked up" % b.name, not bad,
              where=b.where(bad[0] if bad else None), detail=None if not bad else "after a failed lookup no insert into the looked-up map is reached before "
              "the next lookup: a variable that occurs twice in one pattern is compared with nothing and the later position overwrites the earlier")
